@@ -29,6 +29,9 @@ use noodles_csi::{
 use noodles_tabix as tabix;
 use nv::{Case, CaseWriter, Obs, Rng};
 
+#[path = "../shared/c17_layout.rs"]
+mod c17_layout;
+
 fn pos(n: u64) -> Position {
     Position::try_from(n as usize).expect("position >= 1")
 }
@@ -279,6 +282,15 @@ fn generate(rng: &mut Rng, tier: &str, w: &mut CaseWriter) {
     }
     for i in 0..n {
         w.push(if i % 2 == 0 { "fai" } else { "crai" }, vec![rng.next().to_string()]);
+    }
+    // CSI / tabix byte layouts: structured indexes through the real writer and reader, and raw
+    // payloads (with anomalies) through the real reader; all compared with NV.Index.CsiLayout
+    let n = if thorough { 4000 } else { 200 };
+    for _ in 0..n {
+        c17_layout::gen_csiw(rng, w);
+        c17_layout::gen_tbiw(rng, w);
+        c17_layout::gen_csir(rng, w);
+        c17_layout::gen_tbir(rng, w);
     }
 }
 
@@ -904,6 +916,10 @@ fn run(c: &Case) -> Obs {
         "gzi" => run_gzi(c),
         "fai" => run_fai(c.u(0)),
         "crai" => run_crai(c.u(0)),
+        "csiw" => c17_layout::run_csiw(c),
+        "csir" => c17_layout::run_csir(c),
+        "tbiw" => c17_layout::run_tbiw(c),
+        "tbir" => c17_layout::run_tbir(c),
         k => Obs::fail("-", "harness-unknown-kind", k),
     }
 }
